@@ -33,6 +33,9 @@ def _proj():
         # a pair of files whose findings would differ if analyzer state leaked from file to file
         (Path(d) / "src" / "aliasmod.py").write_text("import re as rx\n\n\nWORD = rx.compile('a+')\n\n\ndef words(text):\n    return WORD.findall(text)\n")
         (Path(d) / "src" / "sub" / "rows.py").write_text("def scan(rows):\n    out = []\n    for rx in rows:\n        out.append(rx.split(','))\n    return out\n")
+        # an unparsable file: linters report their own *.syntax-error ids through every entry point alike
+        (Path(d) / "src" / "broken.py").write_text("class Broken:\n    def run(self):\n        return (1 +\n\ndef oops(:\n    pass\n")
+        (Path(d) / "src" / "broken.ts").write_text("function broken( {\n  if (x {\n    return 3975;\n")
         body = triggers.DUP_FILES["dup1.py"].split("\n", 1)[1].replace("total", "amount")
         (Path(d) / "src" / "selfdup.py").write_text("def one(rows):\n" + body + "\n\ndef two(rows):\n" + body)
         _P["d"] = Path(d)
@@ -86,7 +89,7 @@ def h_cli_vs_api(ctx):
     from src.cli_main import cli
     d = _proj()
     cmd = ctx.pick("command", tuple(c for c in catalogue.linter_commands() if c != "file-placement"))
-    target = ctx.pick("target", ("directory", "file:dup1.py", "file:selfdup.py", "file:magic.py", "file:unwrap.rs", "file:nest.ts", "subdir"))
+    target = ctx.pick("target", ("directory", "file:dup1.py", "file:selfdup.py", "file:magic.py", "file:unwrap.rs", "file:nest.ts", "file:broken.py", "file:broken.ts", "subdir"))
     t = {"directory": d / "src", "subdir": d / "src" / "sub"}.get(target) or d / "src" / target.split(":")[1]
     ign.clear_ignore_parser_cache()
     r = CliRunner().invoke(cli, [cmd, "--format", "json", str(t)])
